@@ -268,7 +268,7 @@ type Monitor struct {
 	Poison bool
 	// MaxEvents: event budget per case (0 = none); exceeding it makes the host callback panic,
 	// which ends the call with a trap instead of an endless release loop.
-	MaxEvents int64
+	MaxEvents  int64
 	caseEvents int64
 	// RecordKinds: mark kinds for which a census Record is stored.
 	RecordKinds map[int]bool
